@@ -368,3 +368,111 @@ func viaStr(e *lockEdge) string {
 	}
 	return " via " + e.Via
 }
+
+// rulesC13grace: every way the handler loop learns that a context ended
+// leads to disposal.
+func (c *Ctx) rulesC13grace() {
+	c.rule("C13.grace", "in Machine.handlerLoop (and its call closure) every select case that fires on a context's Done channel reaches a disposal request (Machine.Dispose, handlerLoopDone, or a forked Add1(Disposing)) before the function returns or waits again: the grace-period timeout is the only backstop when a state-based disposal stalls, without it WhenDisposed and every waiter stay open forever")
+	hl := c.fn(pm + ":Machine.handlerLoop")
+	if hl == nil {
+		return
+	}
+	isDispose := func(ins ssa.Instruction) bool {
+		ci, ok := ins.(ssa.CallInstruction)
+		if !ok {
+			return false
+		}
+		cc := ci.Common()
+		if c.callMatches(cc, pm+":Machine.Dispose") || c.callMatches(cc, pm+":Machine.handlerLoopDone") || c.callMatches(cc, pm+":Machine.doDispose") {
+			return true
+		}
+		if _, isGo := ins.(*ssa.Go); isGo && (c.callMatches(cc, pm+":Machine.Add1") || c.callMatches(cc, pm+":Machine.Add")) {
+			return true
+		}
+		return false
+	}
+	n := 0
+	var visit func(f *ssa.Function)
+	visit = func(f *ssa.Function) {
+		for _, a := range f.AnonFuncs {
+			visit(a)
+		}
+		for _, b := range f.Blocks {
+			for _, ins := range b.Instrs {
+				bo, ok := ins.(*ssa.BinOp)
+				if !ok || bo.Op != token.EQL {
+					continue
+				}
+				ex, ok := bo.X.(*ssa.Extract)
+				if !ok || ex.Index != 0 {
+					continue
+				}
+				sel, ok := ex.Tuple.(*ssa.Select)
+				if !ok {
+					continue
+				}
+				k, ok := constInt(bo.Y)
+				if !ok || k < 0 || int(k) >= len(sel.States) {
+					continue
+				}
+				st := sel.States[k]
+				call, ok := st.Chan.(*ssa.Call)
+				if !ok || st.Dir != types.RecvOnly || calleeName(&call.Call) != "Done" {
+					continue
+				}
+				// the If on this comparison; Succs[0] is the case body
+				var body *ssa.BasicBlock
+				if bo.Referrers() != nil {
+					for _, r := range *bo.Referrers() {
+						if ifi, ok := r.(*ssa.If); ok {
+							body = ifi.Block().Succs[0]
+						}
+					}
+				}
+				if body == nil || len(body.Instrs) == 0 {
+					continue
+				}
+				n++
+				what := render(call.Call.Value)
+				if call.Call.IsInvoke() {
+					what = render(call.Call.Value) + ".Done()"
+				}
+				// all paths from the start of the body reach a disposal request before a return or the next select
+				okPath := true
+				seen := map[*ssa.BasicBlock]bool{body: true}
+				var dfs func(b *ssa.BasicBlock) bool // true: an exit reached without disposal
+				dfs = func(b *ssa.BasicBlock) bool {
+					for _, in := range b.Instrs {
+						if isDispose(in) {
+							return false
+						}
+						if _, ok := in.(*ssa.Return); ok {
+							return true
+						}
+						if _, ok := in.(*ssa.Select); ok {
+							return true
+						}
+					}
+					for _, s := range b.Succs {
+						if !seen[s] {
+							seen[s] = true
+							if dfs(s) {
+								return true
+							}
+						}
+					}
+					return false
+				}
+				if dfs(body) {
+					okPath = false
+				}
+				c.check(okPath, "C13.grace", fmt.Sprintf("%s: case <-%s#%d requests disposal", funcKey(f), what, n), sel.Pos(),
+					"a path from this case returns (or waits again) without Dispose / handlerLoopDone / forked Add1(Disposing): the machine is never disposed on this path")
+			}
+		}
+	}
+	visit(hl)
+	if n < 4 {
+		c.undecided(fmt.Sprintf("C13.grace: only %d context cases found in handlerLoop (4 expected)", n))
+	}
+}
